@@ -118,6 +118,8 @@ def r17_1_2_5(ctx: Ctx):
     lazy = set(_caches.lazy_caches(ctx, ev))
     ctx.analysed['scratch_attributes'] = sorted(scr)
     allowed_writers = {roles.fq(ev.methods[m]) for m in ('__init__', 'SetBounds') if m in ev.methods}
+    # property setters / helpers that only the constructor and SetBounds use are part of them
+    allowed_writers = roles.dominated_closure(allowed_writers) | {q + '@setter' for q in allowed_writers}
     qreach = pta.reachable(qs)
     scratch_objs = set()
     for o in ev_objs:
@@ -127,6 +129,8 @@ def r17_1_2_5(ctx: Ctx):
     for m in E.mutations_in(ctx, qreach):
         if m.init_self or m.kind in ('attr',):
             continue
+        if m.kind == 'aug' and isinstance(m.field, str) and m.field in scr:
+            continue          # self.<scratch> += ... : an update of the scratch array itself (typestate: R17.3)
         n4 += 1
         bad = [o for o in m.bases if not E.fresh_in(qreach, o) and o not in scratch_objs
                and o.kind in ('ndarray', 'list', 'dict', 'set', 'inst', 'ext_inst', 'ext')]
